@@ -47,7 +47,13 @@ def dec(h):
 
 
 def optint(v):
-    return "n" if v is None else str(v)
+    if v is None:
+        return "n"
+    try:
+        return str(v)
+    except ValueError:
+        # beyond CPython's limit for converting integers to decimal text
+        return hex(v)
 
 
 def parse_kv(line):
